@@ -471,6 +471,17 @@ impl H {
         self.n
     }
 
+    /// A `&mut self` handler that unregisters its own interface.
+    async fn close(&mut self, #[zbus(object_server)] server: &zbus::ObjectServer) -> bool {
+        self.w.yield_now().await;
+        server.remove::<H, _>("/h").await.is_ok()
+    }
+
+    /// A `&self` handler that unregisters its own interface.
+    async fn detach(&self, #[zbus(object_server)] server: &zbus::ObjectServer) -> bool {
+        server.remove::<H, _>("/h").await.is_ok()
+    }
+
     /// A getter that registers an object.
     #[zbus(property)]
     async fn probe(&self, #[zbus(object_server)] server: &zbus::ObjectServer) -> u32 {
